@@ -417,11 +417,9 @@ func (e StreamEngine) Run(t *testing.T, ctx *kit.Ctx, sc *kit.Scenario[StreamCon
 			off += n
 		}
 		wire.peer.Close() // end of stream
-		select {
-		case <-ls.Done():
-		case <-time.After(60 * time.Second):
-			panic("harness: the transport's receive loop did not end within 60 s of the end of the stream")
-		}
+		// a receive loop that does not end after the end of the stream is a hang: the driver notices that this
+		// run makes no progress, kills the worker and confirms it from the seed (3.8)
+		<-ls.Done()
 		wire.close()
 	case "udp":
 		// the UDP transport reads its socket through the same stream framing: every datagram is one read() result,
@@ -505,11 +503,7 @@ func (e StreamEngine) Run(t *testing.T, ctx *kit.Ctx, sc *kit.Scenario[StreamCon
 			time.Sleep(100 * time.Microsecond)
 		}
 		wire.udp.Close()
-		select {
-		case <-ls.Done():
-		case <-time.After(60 * time.Second):
-			panic("harness: the transport's receive loop did not end within 60 s of closing it")
-		}
+		<-ls.Done() // (a loop that never ends is a hang, see above)
 		wire.close()
 	case "std":
 		var deadlock any
